@@ -9,7 +9,7 @@ import numpy as np
 from . import common
 from .common import harness, outcome, typed, cells, obs_array, obs_scalar
 
-BITS = {"bool": 1, "int8": 8, "uint8": 8, "int16": 16, "int32": 32, "uint32": 32, "int64": 64, "uint64": 64, "float16": 16, "float32": 32, "float64": 64}
+BITS = {"bool": 1, "int8": 8, "uint8": 8, "int16": 16, "uint16": 16, "int32": 32, "uint32": 32, "int64": 64, "uint64": 64, "float16": 16, "float32": 32, "float64": 64}
 
 
 def gen_vals(E, n, dt, tag="v"):
